@@ -101,7 +101,8 @@ func layoutCfg(mapping, modPrefix string) work.Cfg {
 	switch mapping {
 	case "own":
 		for _, f := range []string{"a", "b", "c", "z"} {
-			c.SchemaMappings = append(c.SchemaMappings, work.Mapping{SchemaID: id(f), PackageName: modPrefix + "/p" + f, OutputName: "p" + f + "/" + f + ".go"})
+			c.SchemaMappings = append(c.SchemaMappings, work.Mapping{SchemaID: id(f), PackageName: modPrefix + "/p" + f, OutputName: "p" + f + "/" + f + ".go",
+				RootType: "Root" + strings.ToUpper(f)})
 		}
 	case "samebase": // different import paths ending in the same element
 		for _, f := range []string{"a", "b", "c", "z"} {
